@@ -14,6 +14,9 @@ import (
 
 type Value interface{}
 
+// SnapV is a memory state captured by the spec builtin state().
+type SnapV struct{ Snap *Snapshot }
+
 type SliceV struct {
 	Obj, Off, Len, Cap *Term
 	Elem               types.Type
